@@ -37,3 +37,16 @@ NA = {}
 TEXT["C06"] = {"ref": "DESIGN.md §7 C06", "technique": "Lean 4 model of Python's backtracking matcher run on CPython-parsed pattern trees (pinned) + correspondence + independent token-scanner oracle; frame theorem at T0",
     "text": "Partial (tier T0). The two address patterns are translated through CPython's own parser into the Lean Re type and run by a Lean model of the backtracking matcher (ordered alternation, counted repeats, look-around, groups); parse/print of both families are modelled after ipaddress. Kernel-evaluated instances and the octet arithmetic are proved; the unbounded token-level reading ('every valid standalone token and nothing else is replaced') is NOT yet a theorem - it is validated exhaustively on all short strings over boundary alphabets and on structured tokens against an independent scanner. Known finding: IPv6 addresses with a dotted-quad tail.",
     "note": "Trusted/validated rather than proved: that the Lean engine interprets the pinned trees as CPython's _sre does (validated on every exhaustive/seeded line of each run); ipaddress parsing/printing re-implemented in IpText.lean (validated likewise). The address map used by the text model is the pure Ffull/Gfull proved equal to the implementation's memo machine."}
+
+SECNOTE = ("Modelled by hand after netconan/sensitive_item_removal.py (Secrets.lean) with the patterns pinned from CPython's parser; tied to the code by "
+           "correspondence on every run (outputs, WARNING records and the lookup table after each history). passlib's two crypt hashes are external "
+           "parameters. 'The captured group is the operator's secret' is a statement about vendor syntax represented by the committed line-form table.")
+TEXT["C07"] = {"ref": "DESIGN.md §7 C07", "technique": "Lean 4 theorems about the model of _anonymize_value (non-interference of the replacement) + correspondence + paired-run oracle",
+    "text": "Partial (T0). Proved for every table, salt, pattern set: the replacement of a new secret is a function of (format class, md5 salt length, table size) only; seen secrets are answered from the table; the scrub WARNING contains the pattern text only. Line-form level non-interference (same equality pattern => identical output and INFO+ logs, secret gone from its slot) is validated by paired runs on the real code over the committed line-form table, with two recorded findings.",
+    "note": SECNOTE}
+TEXT["C08"] = {"ref": "DESIGN.md §7 C08", "technique": "Lean 4 theorems about the lookup discipline of the model (hit/miss/append, $9$ keyed by plaintext) + correspondence + decoding oracle",
+    "text": "Proved for every history prefix (any table): a hit returns the stored replacement and leaves the table unchanged; a miss appends exactly one entry numbered by the table size; repeating a value is idempotent; any $9$ string or clear text whose plaintext is already keyed gets that pseudonym; enclosing text never reaches the key. Distinctness of rendered pseudonyms is kernel-checked for the first 40 indices (test) and validated with independent decoders; passlib's hashes are hypotheses.",
+    "note": SECNOTE}
+TEXT["C09"] = {"ref": "DESIGN.md §7 C09", "technique": "Lean 4 frame theorems (head ++ value ++ tail = raw; leading/trailing kept) + correspondence + independent decoders (passlib, own $9$ decoder)",
+    "text": "Proved: _extract_enclosing_text loses nothing (head ++ value ++ tail = raw for every input and table of enclosing texts) and _anonymize_value returns head ++ replacement ++ tail; replace_matching_item returns leading ++ body' ++ trailing; the $9$ replacement decrypts (C18); closed forms for the type-7 prefix and hex length. Format preservation per class (type 7 decodable, md5 salt length, $6$, digits, hex) is validated with independent decoders on every run.",
+    "note": SECNOTE}
